@@ -8,6 +8,7 @@ import signal
 from lib import vlib
 
 NVARS = 4            # user variables u0..u3
+LETBASE = 40         # model variables standing for let-bound names
 CLASSES = 5          # exception classes 0 (TypeError), E1..E4
 SUBPAIRS = [(2, 1), (3, 1)]   # E2 <: E1, E3 <: E1  (reflexivity is built in)
 
@@ -26,6 +27,8 @@ class Gen:
         self.rng, self.forms, self.max_depth = rng, set(forms), max_depth
         self.k = 0
         self.loopvar = 0
+        self.letvars = []
+        self.letcount = 0
 
     def fresh_k(self):
         self.k += 1
@@ -41,7 +44,14 @@ class Gen:
             return ("const", ("none",))
         if r < 0.8 and "exn" in self.forms:
             return ("const", ("exn", self.rng.randrange(CLASSES)))
+        if self.letvars and self.rng.random() < 0.5:
+            return ("var", self.rng.choice(self.letvars))
         return ("var", self.rng.randrange(NVARS))
+
+    def target(self):
+        if self.letvars and self.rng.random() < 0.5:
+            return self.rng.choice(self.letvars)
+        return self.rng.randrange(NVARS)
 
     def body(self, d, loop, lo=0, hi=3):
         return [self.expr(d, loop) for _ in range(self.rng.randrange(lo, hi + 1))]
@@ -52,8 +62,15 @@ class Gen:
             if rng.random() < 0.5:
                 return ("log", self.fresh_k(), self.const())
             return self.const()
+        if self.letvars and rng.random() < 0.3:
+            # assign a statement-lifted value to a let-bound name (the Result.rename path through ScopeLet)
+            k = rng.choice(self.letvars)
+            stm = ("do", [("setv", rng.randrange(NVARS), self.const()), ("log", self.fresh_k(), self.const())])
+            val = rng.choice([("bool", rng.random() < 0.5, [("log", self.fresh_k(), self.const()), stm, self.const()]),
+                              ("if", ("log", self.fresh_k(), self.const()), stm, self.const())])
+            return (rng.choice(["setv", "setx"]) if "setx" in self.forms else "setv", k, val)
         choices = ["log", "do", "setv", "bool", "bool", "not", "if"]
-        for f in ("setx", "while", "raise", "try"):
+        for f in ("setx", "while", "raise", "try", "let"):
             if f in self.forms:
                 choices.append(f)
         if loop > 0 and "while" in self.forms:
@@ -64,9 +81,19 @@ class Gen:
         if f == "do":
             return ("do", self.body(d - 1, loop, 0, 3))
         if f == "setv":
-            return ("setv", rng.randrange(NVARS), self.expr(d - 1, loop))
+            return ("setv", self.target(), self.expr(d - 1, loop))
         if f == "setx":
-            return ("setx", rng.randrange(NVARS), self.expr(d - 1, loop))
+            return ("setx", self.target(), self.expr(d - 1, loop))
+        if f == "let":
+            # a let-bound variable is a fresh model variable (index >= LETBASE) that the Hy text spells with a
+            # user name not otherwise mentioned in the body, so it may shadow an outer variable
+            k = LETBASE + self.letcount
+            self.letcount += 1
+            init = self.expr(d - 1, loop)
+            self.letvars.append(k)
+            body = self.body(d - 1, loop, 1, 3)
+            self.letvars.pop()
+            return ("let", k, init, body)
         if f == "bool":
             return ("bool", rng.random() < 0.5, self.body(d - 1, loop, 0, 4))
         if f == "not":
@@ -124,9 +151,9 @@ def nvars_of(e):
     while stack:
         x = stack.pop()
         if isinstance(x, tuple):
-            if x and x[0] in ("var",):
+            if x and x[0] in ("var",) and x[1] < LETBASE:
                 m = max(m, x[1] + 1)
-            elif x and x[0] in ("setv", "setx"):
+            elif x and x[0] in ("setv", "setx") and x[1] < LETBASE:
                 m = max(m, x[1] + 1)
             stack.extend(x[1:])
         elif isinstance(x, list):
@@ -153,7 +180,7 @@ def kinds(e, acc=None):
     while stack:
         x = stack.pop()
         if isinstance(x, tuple) and x and isinstance(x[0], str):
-            if x[0] not in ("int", "bool", "none", "exn", "all", "one", "many"):
+            if x[0] not in ("int", "bool", "none", "exn", "all", "one", "many") and isinstance(x[0], str):
                 acc[x[0]] = acc.get(x[0], 0) + 1
             stack.extend(x[1:])
         elif isinstance(x, (list, tuple)):
@@ -188,18 +215,50 @@ def hy_val(v):
     return cls_name(v[1])
 
 
+def mentioned(e):
+    out = set()
+    stack = [e]
+    while stack:
+        x = stack.pop()
+        if isinstance(x, tuple) and x and x[0] in ("var", "setv", "setx") and isinstance(x[1], int):
+            out.add(x[1])
+        if isinstance(x, tuple) and x and isinstance(x[0], str):
+            stack.extend(x[1:])
+        elif isinstance(x, (list, tuple)):
+            stack.extend(x)
+    return out
+
+
+_ENV = {}
+
+
+def vname(n):
+    return _ENV.get(n, "u%d" % n)
+
+
 def to_hy(e):
     f = e[0]
     if f == "const":
         return hy_val(e[1])
     if f == "var":
-        return "u%d" % e[1]
+        return vname(e[1])
+    if f == "let":
+        k, init, body = e[1], e[2], e[3]
+        init_s = to_hy(init)
+        used = mentioned(body)
+        free = [n for n in range(NVARS) if n not in used and ("u%d" % n) not in _ENV.values()]
+        name = ("u%d" % free[k % len(free)]) if free else "w%d" % k
+        _ENV[k] = name
+        try:
+            return "(let [%s %s]%s)" % (name, init_s, "".join(" " + to_hy(x) for x in body))
+        finally:
+            del _ENV[k]
     if f == "log":
         return "(log %d %s)" % (e[1], to_hy(e[2]))
     if f == "do":
         return "(do %s)" % " ".join(map(to_hy, e[1])) if e[1] else "(do)"
     if f in ("setv", "setx"):
-        return "(%s u%d %s)" % (f, e[1], to_hy(e[2]))
+        return "(%s %s %s)" % (f, vname(e[1]), to_hy(e[2]))
     if f == "bool":
         return "(%s%s)" % ("and" if e[1] else "or", "".join(" " + to_hy(x) for x in e[2]))
     if f == "not":
@@ -253,6 +312,8 @@ def coq_opt_list(x):
 
 def to_coq(e):
     f = e[0]
+    if f == "let":
+        return "(HDo %s)" % coq_list(["(HSetv %d %s)" % (e[1], to_coq(e[2]))] + [to_coq(x) for x in e[3]])
     if f == "const":
         return "(HConst %s)" % coq_val(e[1])
     if f == "var":
@@ -575,14 +636,17 @@ def differential(chk, progs, judge=None):
             chk.case(src, nontrivial=False)
             chk.fail("compile-error", inp, c[1], "compiles", how)
             continue
-        try:
-            d = impl_dump(c[1], c[2])
-        except Unmodelled as ex:
-            chk.case(src, nontrivial=False)
-            chk.disagree("compiled AST outside the modelled target fragment", src, m, str(ex))
-            continue
-        if d != m:
-            chk.disagree("Compiler.Compile.compile vs hy_compile (AST)", src, m, d)
+        if kinds(p["e"]).get("let"):
+            chk.count("let-programs (behaviour only: the model spells let-bound names as fresh variables)")
+        else:
+            try:
+                d = impl_dump(c[1], c[2])
+            except Unmodelled as ex:
+                chk.case(src, nontrivial=False)
+                chk.disagree("compiled AST outside the modelled target fragment", src, m, str(ex))
+                continue
+            if d != m:
+                chk.disagree("Compiler.Compile.compile vs hy_compile (AST)", src, m, d)
         ir = impl_run(c[1], c[2], p["fault"], p["vals"], p["nv"])
         out = ir.split(" ")[0]
         chk.count("outcome:" + out)
@@ -598,6 +662,7 @@ def differential(chk, progs, judge=None):
             chk.disagree("Compiler.PySem vs CPython on the compiled code", src, r, ir)
         if ir != f:
             key = "behaviour-differs"
+            inp["model_agrees"] = (ir == r)
             p["impl"], p["ref"] = ir, f
             if judge is not None:
                 key = judge(p, src, ir, f)
@@ -620,7 +685,10 @@ def has_empty_else_try(e):
 
 
 def register_matchers(chk):
-    chk.matchers["result-rename-fired"] = lambda rec, params: rec["input"].get("renames") is True
+    # the known defect: Result.rename fired AND the real code behaves exactly as the faithful model of the
+    # (unsound) rename predicts; a different misbehaviour of such a program is still a violation
+    chk.matchers["result-rename-fired"] = lambda rec, params: rec["input"].get("renames") is True and \
+        rec["input"].get("model_agrees") is True
     chk.matchers["try-empty-else-with-handlers"] = lambda rec, params: rec["input"].get("empty_else") is True
 
 
